@@ -1235,6 +1235,8 @@ def main(outfile):
     py2lean_timeunits.main_timeunits(os.path.join(os.path.dirname(outfile), 'TranslatedTimeUnits.lean'), write_if_changed)
     import py2lean_cron                                          # separate module: cron, TimeDate, TimeSpan (C07)
     py2lean_cron.main_cron(os.path.join(os.path.dirname(outfile), 'TranslatedCron.lean'), sys.modules[__name__])
+    import py2lean_cron_cfg                                      # separate module: construction / configuration of cron and its clients (C07)
+    py2lean_cron_cfg.main_cron_cfg(os.path.join(os.path.dirname(outfile), 'TranslatedCronCfg.lean'), sys.modules[__name__])
 
     import py2lean_interval                                      # separate module: interval notations, timeinterval.py (C13)
     py2lean_interval.main_interval(os.path.join(os.path.dirname(outfile), 'TranslatedInterval.lean'), write_if_changed)
